@@ -12,6 +12,7 @@ from typing import (
 )  # pylint: disable=unused-import
 
 import icontract._checkers
+import icontract._metaclass
 from icontract._globals import CallableT, ExceptionT, ClassT
 from icontract._types import Contract, Snapshot, InvariantCheckEvent, Invariant
 
@@ -493,6 +494,20 @@ class invariant:  # pylint: disable=invalid-name
             invariants_on_setattr = []  # type: List[Invariant]
             setattr(cls, "__invariants_on_setattr__", invariants_on_setattr)
         else:
+            if (
+                isinstance(cls, icontract._metaclass.DBCMeta)
+                and "__invariants__" not in cls.__dict__
+            ):
+                # The class was created by the meta-class before any of its bases had invariants, so it sees
+                # the lists of a base. It needs its own lists: the invariant must not end up in the base class
+                # (and in all the other sub-classes of that base).
+                for dunder in (
+                    "__invariants__",
+                    "__invariants_on_call__",
+                    "__invariants_on_setattr__",
+                ):
+                    setattr(cls, dunder, list(getattr(cls, dunder)))
+
             invariants = getattr(cls, "__invariants__")
             assert isinstance(
                 invariants, list
